@@ -327,11 +327,14 @@ func Atlas() []*spec.Program {
 			// cast-typed fields that the configuration declares custom: the hooks decide, not the cast
 			F("CastCfg", "string", cast("CastString")),
 			F("CastCfgList", "int64", rep(), cast("CastInt64")),
+			// custom by proto option and by configuration at once: the configuration's type (and its suffix) counts
+			F("Both", "bytes", custom("CustomBytes"), nn()),
+			F("BothList", "bool", rep(), custom("CustomBool")),
 			F("Plain", "string"))
 		cfg := baseConfig("Customs")
 		// near-miss keys: only an exact key is a suffix entry / a custom type entry
-		cfg.Suffixes = map[string]string{"CustomBool": "Bool_Special", "CastLabel": "Lbl_v2", "IntList": "DecoyA", "pkg.IntList": "DecoyB", "custombool": "DecoyCase", "Custom": "DecoyPrefix"}
-		cfg.CustomTypes = map[string]string{"Customs.ByConfig": "StringCustom", "Customs.ByConfigList": "some/pkg.IntList", "Customs.CastCfg": "CastLabel", "Customs.CastCfgList": "CastInts", "ByConfig": "DecoyType", "Customs.Plain.": "DecoyType", "customs.plain": "DecoyType"}
+		cfg.Suffixes = map[string]string{"CustomBool": "Bool_Special", "CastLabel": "Lbl_v2", "FlagSet": "Flg", "IntList": "DecoyA", "pkg.IntList": "DecoyB", "custombool": "DecoyCase", "Custom": "DecoyPrefix"}
+		cfg.CustomTypes = map[string]string{"Customs.ByConfig": "StringCustom", "Customs.ByConfigList": "some/pkg.IntList", "Customs.CastCfg": "CastLabel", "Customs.CastCfgList": "CastInts", "Customs.Both": "OtherFamily", "Customs.BothList": "FlagSet", "ByConfig": "DecoyType", "Customs.Plain.": "DecoyType", "customs.plain": "DecoyType"}
 		cfg.ComputedFields = []string{"Customs.CustP", "Customs.ByConfig"}
 		cfg.RequiredFields = []string{"Customs.CustStr"}
 		cfg.SensitiveFields = []string{"Customs.CustList", "Customs.ByConfig"}
